@@ -187,9 +187,10 @@ def apply_ghostsets(V, c, pkg, env, heap, oldheap, results, reach, hyp=None):
 
 
 def pkg_of_file(f, default):
-    if f and f.startswith('/repo/'):
-        return os.path.dirname(f[len('/repo/'):])
-    return default
+    # package of a contract file relative to its module root (works for /repo and for scratch worktrees alike)
+    from .spec import _pkg_of_file
+    pk = _pkg_of_file(f) if f else None
+    return pk if pk is not None else default
 
 
 def frame_obligations(V, X, c, ev0, H0, hp, rr, pkg):
